@@ -376,7 +376,13 @@ Definition n_step (lines : list lf) (st : nst) : outcome nst :=
     end
   end.
 
-Definition n_finish (st : nst) : list section := rev (n_append (n_secs st) (n_cur st) (n_adm st)).
+(* after the loop: when no admonition is open and lines are left, they become a text section even if all of them
+   are empty (the empty docstring gives one empty text section, like the other parsers); otherwise _append_section *)
+Definition n_finish (st : nst) : list section :=
+  rev (match n_adm st, n_cur st with
+       | None, e :: c => mk_text (e :: c) :: n_secs st
+       | a, cur => n_append (n_secs st) cur a
+       end).
 
 Definition n_parse (lines : list lf) (o : gopts) (p : parent) : result (list section) :=
   match iter (n_step lines) (S (List.length lines)) (mkNst (g_start o p) false [] None []) with
@@ -491,8 +497,6 @@ Fixpoint leading_blank (ls : list lf) : nat :=
   | [] => 0
   | l :: r => if blank l then S (leading_blank r) else 0
   end.
-(* known finding C12-F1: the docstring is empty (every line blank) *)
-Definition KnownGap_F1 (lines : list lf) : bool := forallb blank lines.
 
 (* ================= well-formed section skeletons ================= *)
 (* n = number of lines.  Text lines exist; an admonition has a header above a non-empty indented block that lies
@@ -577,7 +581,7 @@ Definition enc_section (s : section) : sexp :=
 Definition enc_err (e : err) : sexp := SStr (match e with IndexError => "IndexError" | OutOfFuel => "OutOfFuel" end).
 (* the two flags are the hypotheses of the theorems evaluated on this input: cleandoc post-condition, feature consistency *)
 Definition enc_result (lines : list lf) (r : result (list section)) : sexp :=
-  let flags := SList [of_bool (cleandoc_post lines); of_bool (lines_wf lines); of_bool (KnownGap_F1 lines)] in
+  let flags := SList [of_bool (cleandoc_post lines); of_bool (lines_wf lines)] in
   match r with
   | Ok secs => SList [SStr "ok"; flags; SList (map enc_section secs)]
   | Err e => SList [SStr "err"; flags; enc_err e]
